@@ -235,6 +235,23 @@ def contained(fn):
   return val if kind == 'ok' else 'raise:' + val
 
 
+def layout_variant(model_bytes):
+  """The same model with a different byte layout: buffer table reversed (buffer 0 stays), tensor
+  and metadata buffer indices remapped."""
+  from tensorflow.lite.tools import flatbuffer_utils
+  m = flatbuffer_utils.read_model_from_bytearray(bytearray(model_bytes))
+  n = len(m.buffers)
+  perm = [0] + list(range(n - 1, 0, -1))           # new index -> old index
+  inv = {old: new for new, old in enumerate(perm)}
+  m.buffers = [m.buffers[old] for old in perm]
+  for sg in m.subgraphs:
+    for t in sg.tensors:
+      t.buffer = inv[t.buffer]
+  for md in (m.metadata or []):
+    md.buffer = inv.get(md.buffer, md.buffer)
+  return bytes(flatbuffer_utils.convert_object_to_bytearray(m))
+
+
 def skip_checks_in_recipe(q):
   try:
     return any(bool((r.get('op_config') or {}).get('skip_checks')) for r in q.get_quantization_recipe())
@@ -368,6 +385,19 @@ def execute(doc):
       continue
     a = contained(lambda: run_interpreter(small, spec, sample))
     a2 = contained(lambda: run_interpreter(small, spec, sample))
+    if a == a2:
+      # The comparison of the two forms presupposes that the runtime's result is a function of
+      # the model. For ill-typed outputs (C01/C03 defects of this tree, e.g. a CONV_2D left reading
+      # its float16 weights directly) or unsupported skip_checks configs the kernels read past their
+      # buffers, and the result depends on what lies behind them, i.e. on the byte layout. Probe:
+      # the same ordinary model with its buffer table permuted must give the same outputs.
+      variant = layout_variant(small)
+      av = contained(lambda: run_interpreter(variant, spec, sample))
+      if av != a:
+        rec.probe('runtime_layout_sensitive_skipped')
+        rec.event(step, 'quantize', 'large-ok', core.sha(small), len(large) - len(small))
+        rec.state(core.sha(small), th)
+        continue
     if a != a2:
       rec.probe('runtime_nondeterministic_skipped')
       rec.event(step, 'quantize', 'large-ok', core.sha(small), len(large) - len(small))
